@@ -30,7 +30,11 @@ impl<P: Pat> Actor<P> {
         let node = NodeBuilder::new()
             .config(config)
             .create::<S>()
-            .unwrap_or_else(|e| panic!("node creation failed: {e:?}"));
+            .unwrap_or_else(|e| {
+                // nodes are not the subject of this property: a harness problem, not a verdict
+                eprintln!("drv-service: node creation failed: {e:?}");
+                std::process::exit(2)
+            });
         Actor { node, nd, slots: (0..SLOTS).map(|_| None).collect() }
     }
     pub fn handle_no(&self, slot: usize) -> usize {
